@@ -511,7 +511,12 @@ impl<const N: usize> Pool<N> {
                 let m = self.models[*s].clone();
                 let r: Bitset<N> = lib!(self.sets[*s].clone());
                 self.models[*d] = m;
-                self.sets[*d] = r;
+                if (*d + *s + self.models[*d].iter().filter(|b| **b).count()) % 2 == 0 {
+                    // the other way to spell it: Clone::clone_from into the live destination
+                    lib!(self.sets[*d].clone_from(&r));
+                } else {
+                    self.sets[*d] = r;
+                }
                 *d
             }
             Op::Default(p) => {
